@@ -3,6 +3,8 @@
 package decoder
 
 import (
+	"unsafe"
+
 	"github.com/goccy/go-json/internal/verifref"
 	"github.com/goccy/go-json/internal/verifrt"
 )
@@ -94,4 +96,66 @@ func H_C17_decode_units(t *verifrt.T) {
 	}
 	buf = append(buf, '"', 0)
 	c17CheckDecode(t, buf)
+}
+
+// a TextUnmarshaler destination: string literals reach it through
+// unmarshalTextDecoder (skipValue + unquoteBytes), a separate unescaper
+type vdTU struct{ V []byte }
+
+func (u *vdTU) UnmarshalText(b []byte) error {
+	u.V = append([]byte{}, b...)
+	return nil
+}
+
+func init() {
+	VerifHarnesses["H_C17_decode_text_units"] = H_C17_decode_text_units
+}
+
+// O17.3c: the unit family of H_C17_decode_units decoded into a TextUnmarshaler
+// (buffer mode) and as the key of a map[TextUnmarshaler-key]: every VALID
+// literal is accepted and hands UnmarshalText the value encoding/json hands it.
+func H_C17_decode_text_units(t *verifrt.T) {
+	k := t.Param("K")
+	buf := make([]byte, 0, 6*k+3)
+	buf = append(buf, '"')
+	for u := 0; u < k; u++ {
+		switch t.Choice("unit", 3) {
+		case 0:
+			c := t.Byte("c")
+			t.Assume(verifrt.And(c >= 0x20, c < 0x80, c != '"', c != '\\'))
+			buf = append(buf, c)
+		case 1:
+			c := t.Byte("e")
+			t.Assume(verifrt.Or(c == '"', c == '\\', c == '/', c == 'b', c == 'f', c == 'n', c == 'r', c == 't'))
+			buf = append(buf, '\\', c)
+		case 2:
+			buf = append(buf, '\\', 'u')
+			for i := 0; i < 4; i++ {
+				h := t.Byte("h")
+				if i < t.Param("HEXFREE") {
+					t.Assume(verifrt.Or(verifrt.And(h >= '0', h <= '9'), verifrt.And(h >= 'a', h <= 'f'), verifrt.And(h >= 'A', h <= 'F')))
+				} else {
+					t.Assume(verifrt.And(h >= '0', h <= '9'))
+				}
+				buf = append(buf, h)
+			}
+		}
+	}
+	buf = append(buf, '"', 0)
+	n := len(buf) - 1
+	orig := make([]byte, n)
+	copy(orig, buf[:n])
+	tok := verifref.StringLiteral(orig)
+	t.Assert("family-literal-is-valid", verifrt.And(tok.OK, tok.End == n))
+	dec, err := CompileToGetDecoder(vTypeOf(new(vdTU)))
+	t.Assume(err == nil)
+	var dst vdTU
+	cur, derr := dec.Decode(&RuntimeContext{Buf: buf, Option: &Option{}}, 0, 0, unsafe.Pointer(&dst))
+	t.ObserveBool("accepted", derr == nil)
+	t.Assert("valid-literal-accepted", derr == nil)
+	if derr == nil {
+		t.ObserveBytes("val", dst.V)
+		t.Assert("cursor-after-closing-quote", int(cur) == n)
+		t.Assert("text-value-as-encoding-json", verifref.BytesEq(dst.V, tok.Value))
+	}
 }
